@@ -241,12 +241,23 @@ def reader_frame_table(ctx, slot: str, assume_present=("Lane", "EndTime")):
                             names = M.lit(fn.mod, n.args[0])
                         except NotLiteral:
                             pass
+                exact = False
+                if names is None and c.args:
+                    try:      # reindex([...], axis=1): exactly these columns (others are dropped, missing ones are added as NaN)
+                        names = M.lit(fn.mod, c.args[0])
+                        exact = isinstance(names, (list, tuple)) and all(isinstance(x, str) for x in names)
+                        names = names if exact else None
+                    except NotLiteral:
+                        names = None
                 if names is None or not FO.axis_is_columns(c):
                     undec.append("reindex target not recognised")
                 else:
                     for nm in names:
                         cs = get(nm, op.node, reading=False)
                         cs.present = True
+                    if exact:
+                        for nm in [k for k in st if k not in names]:
+                            del st[nm]
             elif op.name in ("copy", "reset_index"):
                 pass
             else:
@@ -648,6 +659,8 @@ def rule_r5(ctx) -> List[R.Inst]:
     for n in walk_no_nested(rd.node):
         if isinstance(n, ast.Call) and isinstance(n.func, ast.Attribute) and n.func.attr.startswith("_read_") and n.args:
             a = n.args[0]
+            if isinstance(a, ast.BoolOp) and isinstance(a.op, ast.Or):      # file.pop(k, None) or []
+                a = a.values[0]
             if isinstance(a, ast.Call) and call_name(a) in ("pop", "get") and a.args and C.const_str(a.args[0]):
                 popped[C.const_str(a.args[0])] = (n.func.attr, n)
             elif isinstance(a, ast.Subscript) and C.const_str(a.slice):
@@ -673,7 +686,22 @@ def rule_r5(ctx) -> List[R.Inst]:
                                 construct=unparse(written[sec][1])))
         else:
             insts.append(R.ok(rid, key, file, popped[sec][1].lineno, idiom=f"{sec}: {meth} <-> {sorted(slots)}.to_yaml()"))
-    # the metadata reader gets what is left; the writer starts from the metadata dict
+    # a section the document omits (or leaves empty: YAML null) is an empty section, not an error
+    for sec, (meth, call) in sorted(popped.items()):
+        if sec not in want:
+            continue
+        a = call.args[0]
+        null_ok = isinstance(a, ast.BoolOp) and isinstance(a.op, ast.Or) and isinstance(a.values[-1], (ast.List, ast.Tuple))
+        b = a.values[0] if isinstance(a, ast.BoolOp) else a
+        has_default = isinstance(b, ast.Call) and call_name(b) in ("pop", "get") and (len(b.args) >= 2 or any(k.arg == "default" for k in b.keywords))
+        key = f"section:{sec}:omitted"
+        if has_default and (null_ok or (len(b.args) >= 2 and isinstance(b.args[1], (ast.List, ast.Tuple)))):
+            insts.append(R.ok(rid, key, file, call.lineno, idiom="omitted section -> empty list"))
+        else:
+            insts.append(R.viol(rid, key, file, call.lineno,
+                                f"the '{sec}' section is taken with '{unparse(a)}': a document that omits the section raises KeyError "
+                                f"(every other omitted key has a default; an omitted section is an empty one)",
+                                construct=f"{sec}: {unparse(a)}"))
     return insts
 
 
@@ -835,6 +863,111 @@ def rule_r9(ctx) -> List[R.Inst]:
     return out
 
 
+def rule_r10(ctx) -> List[R.Inst]:
+    """reader frames: `pd.DataFrame(dicts)` has one column per key that occurs in ANY object of the document; the frame handed to
+    the list class must be projected onto the declared fields, or format keys the model has no field for (HitSound, EditorLayer,
+    ...) become columns that are NaN on the objects lacking them and are written back as `.nan`"""
+    M = ctx.M
+    rid = "C06.R10"
+    insts = []
+    from .deps import _closure
+    reach = _closure(ctx, [QUAMAP + ".read"])
+    for slot in ("hits", "holds", "bpms", "svs"):
+        q = LISTS[slot] + ".from_yaml"
+        fn = M.fn(q)
+        file = M.mods[fn.mod].rel
+        declared = set(M.list_columns(LISTS[slot]))
+        key = f"{slot}:reader-projection"
+        frames = [n for n in walk_no_nested(fn.node) if isinstance(n, ast.Call) and call_name(n) == "DataFrame" and n.args and
+                  isinstance(n.args[0], ast.Name)]
+        if not frames:
+            insts.append(R.ok(rid, key, file, fn.node.lineno, idiom="no frame is built from the raw objects"))
+            continue
+        # the last statement that fixes the column set before the constructor call
+        proj = None
+        for n in sorted((x for x in walk_no_nested(fn.node) if hasattr(x, "lineno")), key=lambda x: (x.lineno, x.col_offset)):
+            if isinstance(n, ast.Call) and isinstance(n.func, ast.Attribute) and n.func.attr == "reindex":
+                cols = n.args[0] if n.args else next((k.value for k in n.keywords if k.arg in ("columns", "labels")), None)
+                if cols is None:
+                    continue
+                try:
+                    lit_ = M.lit(fn.mod, cols)
+                except Exception:
+                    lit_ = None
+                proj = (n, lit_, unparse(cols))
+            if isinstance(n, ast.Subscript) and isinstance(n.slice, ast.List) and isinstance(n.ctx, ast.Load):
+                try:
+                    lit_ = M.lit(fn.mod, n.slice)
+                except Exception:
+                    lit_ = None
+                if lit_ and all(isinstance(x, str) for x in lit_):
+                    proj = (n, lit_, unparse(n.slice))
+        if proj is None:
+            insts.append(R.viol(rid, key, file, frames[0].lineno,
+                                "the frame built from the document's objects reaches the list with whatever keys the objects carry",
+                                construct=f"{slot}: DataFrame(dicts) unprojected"))
+        elif proj[1] is None or "union" in proj[2]:
+            insts.append(R.viol(rid, key, file, proj[0].lineno,
+                                f"the column set is '{proj[2][:70]}', i.e. the declared fields PLUS every other key that occurs in the "
+                                f"document: a key the model has no field for (HitSound, EditorLayer, ...) becomes a column that is NaN on "
+                                f"the objects lacking it and is written back as '.nan' (and ints as floats)",
+                                construct=f"{slot}: columns = {proj[2][:80]}"))
+        elif set(proj[1]) - declared - {"StartTime", "EndTime", "Lane", "KeySounds", "Bpm", "Multiplier"}:
+            extra = sorted(set(proj[1]) - declared)
+            insts.append(R.viol(rid, key, file, proj[0].lineno, f"the frame is projected onto {sorted(proj[1])}, which has undeclared {extra}",
+                                construct=f"{slot}: projection {sorted(proj[1])}"))
+        else:
+            insts.append(R.ok(rid, key, file, proj[0].lineno, idiom=f"projected onto {sorted(proj[1])}"))
+        if insts and insts[-1].status == R.VIOL and q not in reach:
+            # a public sibling reader that QuaMap.read does not use: same defect class, not observable at the property's entry points
+            insts[-1].status = R.ADV
+            insts[-1].msg = f"({slot}.from_yaml is not reached from QuaMap.read) " + insts[-1].msg
+    return insts
+
+
+def rule_r11(ctx) -> List[R.Inst]:
+    """metadata values are YAML scalars of whatever type the text happens to have (`Tags: 2020` is an int, `Tags:` is null):
+    a str method applied to one needs a str() / `or ""` normalisation first"""
+    M = ctx.M
+    rid = "C06.R11"
+    fn = M.fn(QUAMETA + "._read_metadata")
+    file = M.mods[fn.mod].rel
+    insts = []
+    dparam = [a.arg for a in fn.node.args.args if a.arg != "self"][0]
+    for n in ast.walk(fn.node):
+        if isinstance(n, ast.Call) and isinstance(n.func, ast.Attribute) and n.func.attr in (
+                "split", "strip", "lower", "upper", "replace", "startswith", "endswith", "join", "encode", "rstrip", "lstrip"):
+            recv = n.func.value
+            if isinstance(recv, ast.Call) and call_name(recv) == "get" and isinstance(recv.func, ast.Attribute) and \
+                    isinstance(recv.func.value, ast.Name) and recv.func.value.id == dparam and recv.args:
+                k = C.const_str(recv.args[0]) or unparse(recv.args[0])
+                insts.append(R.viol(rid, f"meta:{k}:raw-scalar", file, n.lineno,
+                                    f"'.{n.func.attr}' is called on the raw YAML value of '{k}': a value that YAML reads as a number, a bool or "
+                                    f"null ('{k}: 2020', '{k}:') raises AttributeError", construct=unparse(n)[:100]))
+            elif isinstance(recv, ast.Call) and isinstance(recv.func, ast.Name) and recv.func.id == "str" and any(
+                    isinstance(x, ast.Call) and call_name(x) == "get" for x in ast.walk(recv)):
+                g = next(x for x in ast.walk(recv) if isinstance(x, ast.Call) and call_name(x) == "get")
+                k = C.const_str(g.args[0]) if g.args else "?"
+                # str(None) == 'None': a null must be replaced before
+                nullsafe = any(isinstance(x, ast.BoolOp) and isinstance(x.op, ast.Or) for x in ast.walk(recv)) or \
+                    (len(g.args) > 1 and not (isinstance(g.args[1], ast.Constant) and g.args[1].value is None))
+                if any(isinstance(x, ast.BoolOp) and isinstance(x.op, ast.Or) for x in ast.walk(recv)):
+                    insts.append(R.ok(rid, f"meta:{k}:raw-scalar", file, n.lineno, idiom="str(value or '') before the str method"))
+                else:
+                    insts.append(R.viol(rid, f"meta:{k}:raw-scalar", file, n.lineno,
+                                        f"'{k}:' (YAML null) becomes the text 'None' through str(): normalise null to '' first",
+                                        construct=unparse(n)[:100]))
+    if not insts:
+        insts.append(R.ok(rid, "meta:raw-scalars", file, fn.node.lineno, idiom="no str method on a raw YAML value"))
+    return insts
+
+
+def rule_r12(ctx) -> List[R.Inst]:
+    """metadata defaults have the type the field declares (and the format defines)"""
+    from .common import dataclass_default_insts
+    return dataclass_default_insts(ctx, QUAMETA, "C06.R12")
+
+
 def rule_dep(ctx):
     """obligations inherited from shared code reached through the call graph (sa/props/deps.py)"""
     from .deps import dep_insts
@@ -851,6 +984,9 @@ SPECS = [
     RuleSpec("C06.R7", rule_r7, 2, "A1", "read_file / write_file pass the text through unchanged (no doubled line breaks)"),
     RuleSpec("C06.R6", rule_r6, 11, "A8", "defaults for omitted keys are applied before use and leave no NaN"),
     RuleSpec("C06.R9", rule_r9, 3, "A7", "library producers of Quaver lists (sv_normalize, converters' empty buffers) hand the writer declared columns only"),
+    RuleSpec("C06.R10", rule_r10, 2, "A2", "reader frames are projected onto the declared fields (no data-dependent columns)"),
+    RuleSpec("C06.R11", rule_r11, 1, "A8", "no str method on a raw YAML scalar"),
+    RuleSpec("C06.R12", rule_r12, 12, "A2", "scalar metadata defaults have the declared type"),
     RuleSpec("C06.D", rule_dep, 1, "M0", "rules of the shared code (timing engine, list classes, stacker) that the operations of this property reach"),
 ]
 
